@@ -141,8 +141,9 @@ def run_case(case):
                 tags.append("propagate_evidence")
             if vec.get("keep_all"):
                 tags.append("keep_all")
-            if cls != "clean":
-                tags.append(cls)
+            cls_v = judge.input_class(F, propagate=bool(vec.get("propagate_evidence")))
+            if cls_v != "clean":
+                tags.append(cls_v)
             if base["kind"] == "ok" and o["kind"] == "ok":
                 sig = "option-diff:%s" % d[0]
             else:
